@@ -180,11 +180,6 @@ Qed.
 
 (* ---------- timers ---------- *)
 
-Lemma bump_backoff c i : c_backoff c = true -> bump c i = cap60 (2 * i).
-Proof. unfold bump. now intros ->. Qed.
-Lemma bump_nobackoff c i : c_backoff c = false -> bump c i = cap60 i.
-Proof. unfold bump. now intros ->. Qed.
-
 (* an endpoint that awaits a reply and whose next transmission cannot complete the handshake by
    itself: every endpoint except a client whose final flight has nothing left to acknowledge *)
 Definition awaiting (c : cfg) (e : ep) : Prop :=
@@ -223,44 +218,64 @@ Qed.
 Fixpoint timeouts (k : nat) (c : cfg) (e : ep) : ep :=
   match k with O => e | S k' => fst (on_timer c (timeouts k' c e)) end.
 
-Lemma cap60_double_min i k : i <= 60000 ->
-  cap60 (2 * N.min (i * 2 ^ N.of_nat k) 60000) = N.min (i * 2 ^ N.of_nat (S k)) 60000.
+(* the schedule: I, 2I, 4I ... capped at 60 s with backoff while I is below the cap; constantly I
+   without backoff, and for an I configured at or above 60 s *)
+Definition sched (c : cfg) (i : N) (k : nat) : N :=
+  if c_backoff c && (i <? 60000) then N.min (i * 2 ^ N.of_nat k) 60000 else i.
+
+Lemma bump_sched c i k : bump c (sched c i k) = sched c i (S k).
 Proof.
-  intro Hi. replace (N.of_nat (S k)) with (N.succ (N.of_nat k)) by lia. rewrite N.pow_succ_r'.
-  unfold cap60. set (p := 2 ^ N.of_nat k).
-  destruct (N.leb_spec (i * p) 60000) as [Hle | Hgt].
-  - rewrite (N.min_l _ _ Hle).
-    destruct (N.ltb_spec 60000 (2 * (i * p))) as [H | H].
-    + rewrite N.min_r by lia. reflexivity.
-    + rewrite N.min_l by lia. lia.
-  - rewrite N.min_r by lia.
-    destruct (N.ltb_spec 60000 (2 * 60000)) as [H | H]; [|lia].
-    rewrite N.min_r by lia. reflexivity.
+  unfold sched, bump. destruct (c_backoff c); cbn [andb]; [|reflexivity].
+  destruct (N.ltb_spec i 60000) as [Hi | Hi].
+  - replace (N.of_nat (S k)) with (N.succ (N.of_nat k)) by lia. rewrite N.pow_succ_r'.
+    set (p := 2 ^ N.of_nat k).
+    destruct (N.leb_spec (i * p) 60000) as [Hle | Hgt].
+    + rewrite (N.min_l _ _ Hle).
+      destruct (N.ltb_spec (i * p) 60000) as [Hlt | Hge].
+      * destruct (N.ltb_spec 30000 (i * p)) as [H3 | H3].
+        -- rewrite N.min_r by lia. reflexivity.
+        -- rewrite N.min_l by lia. lia.
+      * rewrite N.min_r by lia. lia.
+    + rewrite N.min_r by lia. change (60000 <? 60000) with false. cbv iota. rewrite N.min_r by lia. reflexivity.
+  - destruct (N.ltb_spec i 60000); [lia | reflexivity].
+Qed.
+
+Lemma sched_0 c i : sched c i 0 = i.
+Proof.
+  unfold sched. destruct (c_backoff c && (i <? 60000)) eqn:E; [|reflexivity].
+  apply andb_prop in E. destruct E as [_ E]. apply N.ltb_lt in E.
+  change (2 ^ N.of_nat 0) with 1. rewrite N.mul_1_r, N.min_l by lia. reflexivity.
 Qed.
 
 (* C17 timer law: in the absence of input the k-th consecutive retransmission interval is
-   min(I * 2^k, 60 s) with backoff and constantly I without; the flight stays the same; each
-   expiry comes exactly one (new) interval after the previous one *)
+   min(I * 2^k, 60 s) with backoff (for I below the cap) and constantly I otherwise; the flight stays
+   the same; each expiry comes exactly one (new) interval after the previous one *)
 Theorem interval_law c e k :
-  awaiting c e -> e_interval e <= 60000 ->
+  awaiting c e ->
   let e' := timeouts k c e in
   awaiting c e' /\ e_flight e' = e_flight e /\ e_out e' = e_out e /\
-  e_interval e' = (if c_backoff c then N.min (e_interval e * 2 ^ N.of_nat k) 60000 else e_interval e) /\
+  e_interval e' = sched c (e_interval e) k /\
   e_timer (timeouts (S k) c e) = e_timer e' + e_interval (timeouts (S k) c e).
 Proof.
-  intros Ha Hi. induction k as [|k IH].
+  intros Ha. induction k as [|k IH].
   - cbn [timeouts]. destruct (timer_step c e Ha) as (H1 & H2 & H3 & H4 & H5 & H6).
     split; [exact Ha|]. split; [reflexivity|]. split; [reflexivity|]. split; [|exact H2].
-    destruct (c_backoff c); [|reflexivity].
-    change (2 ^ N.of_nat 0) with 1. rewrite N.mul_1_r, N.min_l by lia. reflexivity.
+    now rewrite sched_0.
   - destruct IH as (Ha' & Hf & Ho & Hint & _).
     cbn [timeouts].
     destruct (timer_step c (timeouts k c e) Ha') as (H1 & H2 & H3 & H4 & H5 & H6).
     split; [exact H5|]. split; [congruence|]. split; [congruence|]. split.
-    + rewrite H1, Hint. unfold bump. destruct (c_backoff c).
-      * now apply cap60_double_min.
-      * unfold cap60. destruct (N.ltb_spec 60000 (e_interval e)); [lia | reflexivity].
+    + rewrite H1, Hint. apply bump_sched.
     + destruct (timer_step c (fst (on_timer c (timeouts k c e))) H5) as (_ & H2' & _). exact H2'.
+Qed.
+
+(* the schedule never exceeds max(I, 60 s) and never shrinks *)
+Lemma sched_bounds c i k : i <= sched c i k /\ sched c i k <= N.max i 60000.
+Proof.
+  unfold sched. destruct (c_backoff c && (i <? 60000)) eqn:E; [|lia].
+  apply andb_prop in E. destruct E as [_ E]. apply N.ltb_lt in E.
+  assert (1 <= 2 ^ N.of_nat k) by (apply N.lt_pred_le; cbn; apply N.neq_0_lt_0; apply N.pow_nonzero; lia).
+  split; [apply N.min_glb; nia | lia].
 Qed.
 
 (* C17: while a flight that is not retransmitted (HelloRetryRequest) is current, the timer sends
@@ -333,12 +348,14 @@ Proof.
   destruct (acknowledge e1 acks) as [[e2 empty] progress] eqn:Ea.
   assert (H2 : e_interval e2 = base).
   { pose proof (acknowledge_interval e1 acks) as H. rewrite Ea in H. cbn [fst] in H. congruence. }
-  destruct (negb hs).
+  destruct (negb hs && _).
   { rewrite <- H2. apply after_ack_interval. }
-  destruct (retr && fl_last_send c (e_flight e2)).
+  destruct (hs && retr && fl_last_send c (e_flight e2)).
   { pose proof (after_ack_interval c e2 empty progress true now) as H.
     destruct (after_ack c e2 empty progress true now). cbn [fst] in *. now rewrite <- H2. }
-  destruct (e_client e2 && fl_last_send c (e_flight e2)).
+  destruct (hs && e_client e2 && fl_last_send c (e_flight e2) && negb (has_post e2)).
+  { cbn [fst]. left. exact H2. }
+  destruct (hs && e_client e2 && fl_last_send c (e_flight e2)).
   { set (e3 := set_fsm e2 _ _ _ _ _ _ _ _ _ _).
     pose proof (to_finished_interval c e3 now) as H4. destruct (to_finished c e3 now) as [e4 o4].
     pose proof (post_receive_interval c e4 hs acks rta) as H5. destruct (post_receive c e4 hs acks rta) as [e5 o5].
@@ -362,7 +379,7 @@ Qed.
 Lemma consume_nst_same n : forall e, same_fsm e (consume_nst n e).
 Proof.
   induction n as [|n IH]; intro e; cbn [consume_nst]; [apply same_fsm_refl|].
-  dif; [|apply same_fsm_refl]. eapply same_fsm_trans; [apply same_fsm_set_recvseq | apply IH].
+  dif; [|apply same_fsm_refl]. eapply same_fsm_trans; [apply same_fsm_set_rx | apply IH].
 Qed.
 
 Lemma post_receive_shape c e hs acks rta :
@@ -534,13 +551,15 @@ Proof.
   assert (Hb1 : bounded c e1) by (subst e1; destruct retr; [exact Hb | destruct Hb; split; cbn; assumption]).
   pose proof (acknowledge_bound c e1 acks Hb1) as Hb2.
   destruct (acknowledge e1 acks) as [[e2 empty] progress]. cbn [fst] in Hb2.
-  destruct (negb hs).
+  destruct (negb hs && _).
   { destruct (after_ack_bound c e2 empty progress false now Hb2). split; [assumption | lia]. }
-  destruct (retr && fl_last_send c (e_flight e2)).
+  destruct (hs && retr && fl_last_send c (e_flight e2)).
   { destruct (after_ack_bound c e2 empty progress true now Hb2) as [Ha Hl].
     destruct (after_ack c e2 empty progress true now) as [e3 o3]. cbn [fst snd] in *.
     split; [exact Ha|]. rewrite app_length. pose proof (ack_dgram_len (e_lepoch e2) rta). lia. }
-  destruct (e_client e2 && fl_last_send c (e_flight e2)) eqn:Ec.
+  destruct (hs && e_client e2 && fl_last_send c (e_flight e2) && negb (has_post e2)).
+  { cbn [fst snd]. split; [exact Hb2|]. pose proof (ack_dgram_len (e_lepoch e2) rta). lia. }
+  destruct (hs && e_client e2 && fl_last_send c (e_flight e2)) eqn:Ec.
   { set (e3 := set_fsm e2 _ _ _ _ _ _ _ _ _ _).
     assert (Hb3 : bounded c e3) by (destruct Hb2; split; cbn; assumption).
     destruct (to_finished_bound c e3 now Hb3) as (Ha & Hl & _).
@@ -825,7 +844,7 @@ Proof.
   assert (Hp2 : pre_cookie c e2) by (subst e2; unfold pre_cookie; cbn; auto 10).
   pose proof Hp2 as (B1&B2&B3&B4&B5&B6&B7).
   assert (Hls : fl_last_send c (e_flight e2) = false) by (destruct B7 as [(Q&_) | (Q&_)]; rewrite Q; assumption).
-  rewrite Hls, B1. rewrite andb_false_r. cbn [andb].
+  rewrite Hls, B1. cbn [andb negb]. rewrite ?andb_false_r. cbv iota.
   unfold parse. rewrite B1.
   destruct B7 as [(Q1&Q2&Q3) | (Q1&Q2&Q3&Q4&Q5)]; rewrite Q1.
   - change (N.eqb F0 F0) with true. cbv iota.
@@ -996,12 +1015,15 @@ Definition storm_moves : list move :=
 
 Definition sout_len (o : option sys) : nat := match o with Some s => length (s_sout s) | None => 0 end.
 
-(* every received datagram flagged as a retransmission makes the DTLS 1.3 state machine send its
-   whole current flight again: here one stale fragment costs 16 datagrams (the constant of the
-   emission bound is the flight size, not a small number) *)
+(* a received datagram flagged as a retransmission makes the DTLS 1.3 state machine send its whole
+   current flight again unless the flight went out less than half an initial interval ago: right
+   after the server's own timer retransmission (1000 ms) the stale fragment costs nothing (33
+   datagrams so far), 600 ms later it costs 16 datagrams (the constant of the emission bound is the
+   flight size, not a small number) *)
 Lemma storm_witness :
   sout_len (run_moves storm_cfg (sys_init storm_cfg) storm_moves) = 17%nat /\
-  sout_len (run_moves storm_cfg (sys_init storm_cfg) (storm_moves ++ [Deliver true 28 1000])) = 49%nat /\
+  sout_len (run_moves storm_cfg (sys_init storm_cfg) (storm_moves ++ [Deliver true 28 1000])) = 33%nat /\
+  sout_len (run_moves storm_cfg (sys_init storm_cfg) (storm_moves ++ [Deliver true 28 1600])) = 49%nat /\
   maxrecs storm_cfg = 16%nat.
 Proof. vm_compute. repeat split; reflexivity. Qed.
 
